@@ -24,7 +24,7 @@ func replayFamily(name string) string {
 	switch {
 	case strings.HasPrefix(name, "lexer.") || strings.HasPrefix(name, "parser.") || strings.HasPrefix(name, "ast."):
 		return "parse"
-	case strings.HasPrefix(name, "iterators.") || strings.HasPrefix(name, "meta.") || strings.HasPrefix(name, "text.") ||
+	case strings.HasPrefix(name, "iterators.") || strings.HasPrefix(name, "meta.") || strings.HasPrefix(name, "text.") || strings.HasPrefix(name, "paths.") ||
 		strings.Contains(name, "ranger") || strings.Contains(name, "roupBy") || strings.Contains(name, "verifDrain"):
 		return "helpers"
 	}
